@@ -600,58 +600,86 @@ class Canon:
 
     # ---- P4 ------------------------------------------------------------------
     def propagate_locals(self):
+        """P4: a new local (not a name of the pinned function) that is assigned once, from a side-effect-free expression whose
+        inputs are not written afterwards, and that is read only by statements that follow the assignment in the same block,
+        is replaced by its value.  Blocks at every nesting level are considered."""
         if not self.have_ref:
             return
         for q, fn, container, cls in self._functions():
             known = set(self.ref_locals.get(q, []))
             if q not in self.ref_funcs:
                 continue
-            stores = {}
-            for n in _own_nodes(fn):
-                if isinstance(n, ast.Name) and isinstance(n.ctx, (ast.Store, ast.Del)):
-                    stores[n.id] = stores.get(n.id, 0) + 1
-            mapping = {}
-            for st in fn.body:
-                if isinstance(st, (ast.Assign, ast.AnnAssign)):
-                    t = st.targets[0] if isinstance(st, ast.Assign) and len(st.targets) == 1 else getattr(st, "target", None)
-                    v = st.value
-                    n_loads = sum(1 for n in _own_nodes(fn) if isinstance(n, ast.Name) and isinstance(n.ctx, ast.Load) and n.id == getattr(t, "id", None))
-                    heavy = any(isinstance(x, (ast.Dict, ast.Call)) for x in ast.walk(v)) if v is not None else False
-                    if isinstance(t, ast.Name) and v is not None and t.id not in known and stores.get(t.id) == 1 \
-                            and not isinstance(v, (ast.Name, ast.Constant)) and _pure_expr(v) and not (heavy and n_loads > 1) \
-                            and not any(isinstance(x, ast.Dict) for x in ast.walk(v)):
-                        # nothing the expression reads may be written after this statement in the function
-                        reads_names = {n.id for n in ast.walk(v) if isinstance(n, ast.Name)}
-                        reads_attrs = {ast.unparse(n) for n in ast.walk(v) if isinstance(n, ast.Attribute)}
-                        clobbered = False
-                        for n in _own_nodes(fn):
-                            if getattr(n, "lineno", 0) <= st.lineno:
-                                continue
-                            if isinstance(n, ast.Name) and isinstance(n.ctx, (ast.Store, ast.Del)) and n.id in reads_names:
-                                clobbered = True
-                            if isinstance(n, (ast.Attribute, ast.Subscript)) and isinstance(n.ctx, (ast.Store, ast.Del)):
-                                txt = ast.unparse(n)
-                                if any(txt == a or a.startswith(txt + ".") or txt.startswith(a + "[") or txt.startswith(a + ".") for a in reads_attrs):
-                                    clobbered = True
-                        # mutating method calls on what it reads (x.append, x.update ...) also count
-                        for n in _own_nodes(fn):
-                            if getattr(n, "lineno", 0) > st.lineno and isinstance(n, ast.Call) and isinstance(n.func, ast.Attribute) \
-                                    and n.func.attr in ("append", "extend", "update", "pop", "clear", "add", "remove", "insert", "setdefault", "discard") \
-                                    and ast.unparse(n.func.value) in (reads_attrs | reads_names):
-                                clobbered = True
-                        # names bound by loops / comprehension targets used in v are not stable either
-                        if not clobbered:
-                            mapping[t.id] = (v, st)
-            if not mapping:
-                continue
-            for name, (v, st) in mapping.items():
-                fn.body.remove(st)
-                self.stats["locals_propagated"] += 1
-            plain = {k: v for k, (v, _) in mapping.items()}
-            for _i in range(len(plain) + 1):  # values may mention other propagated locals
-                plain = {k: _Subst({k2: v2 for k2, v2 in plain.items() if k2 != k}).visit(copy.deepcopy(v)) for k, v in plain.items()}
-            sub = _Subst(plain)
-            fn.body = [sub.visit(s) for s in fn.body]
+            for _round in range(6):
+                stores, loads = {}, {}
+                for n in _own_nodes(fn):
+                    if isinstance(n, ast.Name):
+                        if isinstance(n.ctx, (ast.Store, ast.Del)):
+                            stores[n.id] = stores.get(n.id, 0) + 1
+                        else:
+                            loads.setdefault(n.id, []).append(n)
+                changed = False
+
+                def ok_value(t, v, st) -> bool:
+                    if not (isinstance(t, ast.Name) and v is not None and t.id not in known and stores.get(t.id) == 1):
+                        return False
+                    if isinstance(v, (ast.Name, ast.Constant)) or not _pure_expr(v):
+                        return False
+                    n_loads = len(loads.get(t.id, []))
+                    heavy = any(isinstance(x, (ast.Dict, ast.Call)) for x in ast.walk(v))
+                    if (heavy and n_loads > 1) or any(isinstance(x, ast.Dict) for x in ast.walk(v)):
+                        return False
+                    reads_names = {n.id for n in ast.walk(v) if isinstance(n, ast.Name)}
+                    reads_attrs = {ast.unparse(n) for n in ast.walk(v) if isinstance(n, ast.Attribute)}
+                    for n in _own_nodes(fn):
+                        if getattr(n, "lineno", 0) <= st.lineno:
+                            continue
+                        if isinstance(n, ast.Name) and isinstance(n.ctx, (ast.Store, ast.Del)) and n.id in reads_names:
+                            return False
+                        if isinstance(n, (ast.Attribute, ast.Subscript)) and isinstance(n.ctx, (ast.Store, ast.Del)):
+                            txt = ast.unparse(n)
+                            if any(txt == a_ or a_.startswith(txt + ".") or txt.startswith(a_ + "[") or txt.startswith(a_ + ".") for a_ in reads_attrs):
+                                return False
+                        if isinstance(n, ast.Call) and isinstance(n.func, ast.Attribute) \
+                                and n.func.attr in ("append", "extend", "update", "pop", "clear", "add", "remove", "insert", "setdefault", "discard") \
+                                and ast.unparse(n.func.value) in (reads_attrs | reads_names):
+                            return False
+                    return True
+
+                def block(stmts):
+                    nonlocal changed
+                    i = 0
+                    while i < len(stmts):
+                        st = stmts[i]
+                        if isinstance(st, (ast.Assign, ast.AnnAssign)):
+                            t = st.targets[0] if isinstance(st, ast.Assign) and len(st.targets) == 1 else getattr(st, "target", None)
+                            v = st.value
+                            if ok_value(t, v, st):
+                                later = {id(n) for s2 in stmts[i + 1:] for n in ast.walk(s2)}
+                                if loads.get(t.id) and all(id(n) in later for n in loads[t.id]) \
+                                        and not any(isinstance(d, (ast.FunctionDef, ast.AsyncFunctionDef, ast.Lambda)) and any(
+                                            isinstance(x, ast.Name) and x.id == t.id for x in ast.walk(d)) for s2 in stmts[i + 1:] for d in ast.walk(s2)):
+                                    sub = _Subst({t.id: v})
+                                    stmts[i + 1:] = [sub.visit(s2) for s2 in stmts[i + 1:]]
+                                    del stmts[i]
+                                    self.stats["locals_propagated"] += 1
+                                    changed = True
+                                    return
+                        for fld in ("body", "orelse", "finalbody"):
+                            subl = getattr(st, fld, None)
+                            if isinstance(subl, list) and not isinstance(st, (ast.FunctionDef, ast.AsyncFunctionDef, ast.ClassDef)):
+                                block(subl)
+                                if changed:
+                                    return
+                        if isinstance(st, ast.Try):
+                            for h in st.handlers:
+                                block(h.body)
+                                if changed:
+                                    return
+                        i += 1
+
+                block(fn.body)
+                if not changed:
+                    break
             ast.fix_missing_locations(fn)
 
     def propagate_adjacent(self):
@@ -929,17 +957,21 @@ def relocate(modname: str, tree: ast.Module) -> dict:
     if not ref_funcs:
         return {}
     actual = {}
+    in_new_class = set()   # functions defined inside a class the pinned tree does not have: never relocation candidates
 
-    def walk(body, prefix):
+    def walk(body, prefix, newcls=False):
         for st in body:
             if isinstance(st, (ast.FunctionDef, ast.AsyncFunctionDef)):
                 actual.setdefault(prefix + st.name, st)
-                walk(st.body, prefix + st.name + ".")
+                if newcls:
+                    in_new_class.add(prefix + st.name)
+                walk(st.body, prefix + st.name + ".", newcls)
             elif isinstance(st, ast.ClassDef):
-                walk(st.body, prefix + st.name + ".")
+                pinned_cls = any(q.startswith(prefix + st.name + ".") for q in ref_funcs)
+                walk(st.body, prefix + st.name + ".", newcls or not pinned_cls)
             elif isinstance(st, (ast.If, ast.Try, ast.With, ast.For, ast.While)):
                 for fld in ("body", "orelse", "finalbody"):
-                    walk(getattr(st, fld, []) or [], prefix)
+                    walk(getattr(st, fld, []) or [], prefix, newcls)
 
     walk(tree.body, "")
     missing = sorted((q for q in ref_funcs if q not in actual), key=lambda q: q.count("."))
@@ -951,7 +983,7 @@ def relocate(modname: str, tree: ast.Module) -> dict:
         if parent_missing and parent_missing not in actual and parent_missing in ref_funcs and parent_missing not in mapping.values():
             continue  # the enclosing pinned function is gone as well: not a move of this function alone
         simple = q.split(".")[-1]
-        cands = [a for a in actual if a.split(".")[-1].lstrip("_") == simple.lstrip("_") and a not in ref_funcs and a not in mapping
+        cands = [a for a in actual if a.split(".")[-1].lstrip("_") == simple.lstrip("_") and a not in ref_funcs and a not in mapping and a not in in_new_class
                  and not any(a.startswith(m + ".") for m in mapping)]
         if len(cands) == 1:
             mapping[cands[0]] = q
